@@ -17,7 +17,7 @@ ID = 'C16'
 LEVEL = 'exploration'
 RULE = ('Metamorphic: one instance with 1-2 registered services and 1-2 browsers receives a generated history of datagrams (QM/QU/'
         'mixed/probe/TC/legacy-port queries; responses with new, refreshed, goodbye and cache-flush records of browsed types) with '
-        'float-exact gaps, on an IPv4 or an IPv6 socket; run R delivers each datagram once, run D delivers each twice in immediate succession on the same socket '
+        'float-exact gaps, on an IPv4 or an IPv6 socket, some datagrams repeated byte for byte after a pause of 1-5 s; run R delivers each datagram once, run D delivers each twice in immediate succession on the same socket '
         'at the same virtual instant. The library\'s jitter is a keyed function of (call site, virtual millisecond) so the runs cannot '
         'drift through draw counts. Oracle: the traces (time, socket, destination, decoded content) and the browser callback logs of '
         'D and R are equal, except that a unicast reply to a datagram containing a QU question may appear twice in D. Non-trivial = '
@@ -51,6 +51,10 @@ def scenario(draw) -> Dict[str, Any]:
                                  c04.announce_op().map(lambda o: {'kind': 'resp', 'recs': o[1]}))))
         ev['gap'] = draw(st.one_of(st.sampled_from(GAPS), st.integers(0, 4000)))
         events.append(ev)
+        if draw(st.integers(0, 5)) == 0:
+            # a peer that repeats itself: the very same bytes again after a pause (a poller re-sending an identical query, a
+            # responder re-announcing), with nothing else in between - and that repeat is duplicated by the link as well
+            events.append(dict(ev, same_bytes_as_previous=True, gap=draw(st.sampled_from([999, 1000, 1001, 1500, 3000, 5000]))))
     return {'seed': draw(st.integers(0, 10**6)), 'services': draw(st.sampled_from([[0], [0, 1]])),
             'browsers': draw(st.lists(st.lists(st.integers(0, 2), min_size=1, max_size=2, unique=True).map(sorted), min_size=1, max_size=2)),
             'settle_ms': draw(st.sampled_from([1500, 40000])), 'events': events,
@@ -102,7 +106,9 @@ def run_once(case: Dict[str, Any], dup: bool) -> Dict[str, Any]:
         for i, ev in enumerate(case['events']):
             await advance_exact(w, last, ev['gap'])
             last = w.now_ms
-            if ev['kind'] == 'query':
+            if ev.get('same_bytes_as_previous') and injected:
+                data, src, has_qu = prev
+            elif ev['kind'] == 'query':
                 qs = [_qname(q, case['services']) for q in ev['qs']]
                 auth = [rp.wire_rr_of_ident(('PTR', TYPES[0], 'cand.' + TYPES[0]), 4500)] if ev['probe'] else []
                 data = rp.build_query(qs, [], qid=i + 1, tc=ev['tc'], authorities=auth)
@@ -119,6 +125,7 @@ def run_once(case: Dict[str, Any], dup: bool) -> Dict[str, Any]:
                 data = wire.encode({'id': i + 1, 'flags': 0x8400, 'qd': [], 'an': [c04.to_rr(r) for r in recs], 'ns': [], 'ar': []})
                 src = ('fe80::9', 5353, 0, 2) if v6 else ('10.0.0.9', 5353)
                 has_qu = False
+            prev = (data, src, has_qu)
             injected.append({'t': w.now_ms, 'g': w.gseq, 'qu': has_qu, 'src': src, 'kind': ev['kind']})
             w.net.inject(host, data, src)
             if dup:
